@@ -215,7 +215,7 @@ proof fn lemma_out(outs: Seq<Seq<Event>>, b: Seq<Event>, h0: Set<KeyCode>, h1: S
 #[verifier::exec_allows_no_decreases_clause]
 fn do_remapping_loop_one_device(driver: &mut impl Driver, layout: Layout, verbose: bool) -> (res: Result<(), String>)
   requires !old(driver).failed(), !old(driver).kb_pending(), !old(driver).tab_pending(), !old(driver).tablet(), old(driver).reads_live().len() == 0, old(driver).interrupts() == 0,
-    crate::key_transforms::layout_ok(layout),
+    crate::keys::layout_ok(layout),
   ensures
     //@ C20 | the loop returns Err exactly when a driver call failed, and it is that call's error
     res is Err <==> final(driver).failed(),
